@@ -14,13 +14,14 @@ ID = 'C01'
 RULE = ('data sets: all ordered tuples of distinct lattice points (Q: 1-D {0..5} n<=4, 2-D 3x2 grid n<=3 + one 4-point 2-D set in all orders, '
         '1-D n=5 rotations; T: 1-D {0..6} n<=5, 2-D 3x3 n<=4) x metrics {euclidean, manhattan, callable '
         'chebyshev, callable squared-euclidean} x dtypes {f8,f4,i8,i4} x entry points {kcenters, KCenters, '
-        'kcenters+init_centers, kmedoids cold/warm(inds|state|traj-frame pairs), KMedoids, hybrid, KHybrid} x '
+        'kcenters+init_centers, kmedoids cold/warm(inds|state|traj-frame pairs; state distances also as float32/int64), KMedoids, '
+        'hybrid, KHybrid, the same estimator object fitted on two data sets in a row} x '
         'every k in 1..n+2 (more clusters than frames included), every radius from the data, sweeps 0..3, seeds {s,s+1,s+2}; state = (data, metric, dtype, '
         'entry, params); non-trivial = result with >=2 centers and >=1 non-center frame')
 ASSUMPTIONS = ['small-scope: <=5 frames on integer lattices (distances exact in float64)',
                'oracle distances computed by NumPy in float64; equality tolerance 1e-9',
                'seed alphabet {s,s+1,s+2}: clauses must hold for every seed, none is compared to a stored value']
-GUARDS = {'more_clusters_than_frames': 200, 'pam_accept': 200, 'pam_reject': 200, 'radius_stop': 200, 'warm_pairs': 200, 'init_centers': 200,
+GUARDS = {'refit': 200, 'more_clusters_than_frames': 200, 'pam_accept': 200, 'pam_reject': 200, 'radius_stop': 200, 'warm_pairs': 200, 'init_centers': 200,
           'callable_metric': 200, 'int_dtype': 200}
 
 METRICS = ('euclidean', 'manhattan', 'chebyshev', 'sqeuclid')
@@ -100,6 +101,15 @@ def entries(n, D, full, seed):
             for s in seeds if it else seeds[:1]:
                 yield ('hybrid_k', {'k': k, 'seed': s, 'iters': it})
         yield ('KHybrid_k', {'k': k, 'seed': seeds[0], 'iters': 2})
+    # the same estimator object fitted twice (attributes must describe the LAST fit)
+    for k in range(1, n + 1):
+        for est in ('KCenters', 'KHybrid', 'KMedoids'):
+            yield ('refit_' + est, {'k': k, 'seed': seeds[0], 'iters': 1})
+    # warm-start state supplied with distances in another float/int dtype (exactly representable values)
+    for k in range(1, n + 1):
+        for sub in list(itertools.combinations(range(n), k))[:4]:
+            for ddt in ('float32', 'int64'):
+                yield ('kmedoids_warm_state_dtype', {'inds': list(sub), 'seed': seeds[0], 'iters': 2, 'ddtype': ddt})
     for k in (n + 1, n + 2):
         yield ('hybrid_k', {'k': k, 'seed': seeds[0], 'iters': 0})
         yield ('KHybrid_k', {'k': k, 'seed': seeds[0], 'iters': 0})
@@ -160,6 +170,37 @@ def run_entry(X, metric, entry, p):
     if entry == 'KHybrid_r':
         e = KHybrid(m, cluster_radius=p['r'], kmedoids_updates=p['iters'], random_state=p['seed'])
         return e.fit(X).result_, inputs
+    if entry.startswith('refit_'):
+        est = entry.split('_', 1)[1]
+        X1 = (X[::-1] * 2 + 1).astype(X.dtype)              # a different data set of the same shape
+        k = p['k']
+        if est == 'KCenters':
+            e = KCenters(m, n_clusters=k)
+        elif est == 'KHybrid':
+            e = KHybrid(m, n_clusters=k, kmedoids_updates=p['iters'], random_state=p['seed'])
+        else:
+            e = KMedoids(m, n_clusters=k, n_iters=p['iters'])
+            np.random.seed(p['seed'] % (2 ** 32))
+        if est == 'KMedoids':
+            e.fit(X1, cluster_center_inds=list(range(k)))
+        else:
+            e.fit(X1)
+        _ = (e.centers_, e.labels_, e.distances_, e.center_indices_)      # read everything between the fits
+        e.predict(X1)
+        if est == 'KMedoids':
+            e.fit(X, cluster_center_inds=list(range(k)))
+        else:
+            e.fit(X)
+        r = e.result_
+        return type(r)(center_indices=e.center_indices_, distances=e.distances_, assignments=e.labels_,
+                       centers=e.centers_), inputs
+    if entry == 'kmedoids_warm_state_dtype':
+        D = cr.dist_matrix(X, metric)
+        lab, dist = cr.nearest_state(D, p['inds'])
+        d_in = dist.astype(p['ddtype'])
+        if not np.array_equal(d_in.astype(float), dist):
+            return None, inputs          # only when the supplied state is exactly representable in that dtype
+        return km.kmedoids(X, m, n_iters=p['iters'], assignments=lab, distances=d_in, random_state=p['seed']), inputs
     if entry.startswith('kmedoids_warm') or entry == 'KMedoids_warm':
         D = cr.dist_matrix(X, metric)
         lab, dist = cr.nearest_state(D, p['inds'])
@@ -208,9 +249,13 @@ def check_case(case, ctx):
         ctx.violation('%s:raises:%s' % (entry, type(e).__name__), case,
                       '%s raised %r on %r' % (entry, e, case))
         return
+    if res is None:
+        return
+    if entry.startswith('refit_'):
+        ctx.guard('refit')
     before = None
     want_k = p.get('k') if entry in ('kcenters_k', 'KCenters_k', 'kcenters_init', 'kmedoids_cold',
-                                     'hybrid_k', 'KHybrid_k') else (len(p['inds']) if 'inds' in p else None)
+                                     'hybrid_k', 'KHybrid_k') or entry.startswith('refit_') else (len(p['inds']) if 'inds' in p else None)
     if want_k is not None and want_k > n:
         want_k = n          # distinct frames: the radius reaches 0 with n centers
         ctx.guard('more_clusters_than_frames')
